@@ -422,3 +422,13 @@ def run_cases(ck, subcmd, cases, nproc=8, race=False, timeout=900, env=None, arg
     for local in parallel(work, batches, nproc=nproc):
         results.update(local)
     return results
+
+
+def retry_hangs(ck, subcmd, cases, res, **kw):
+    """Batch cases that did not finish within the driver's deadline are run once more, one at a time: a codec that really loops
+    hangs again; a machine that was merely busy does not turn into a verdict."""
+    again = [c for c in cases if (res.get(c["id"]) or {}).get("hang")]
+    for c in again:
+        r2 = run_cases(ck, subcmd, [c], nproc=1, **kw)
+        res[c["id"]] = r2[c["id"]]
+    return res
